@@ -1251,6 +1251,10 @@ pub fn configs_c14(tier: Tier) -> Vec<Config> {
             Tier::Quick => 1,
             Tier::Thorough => 2,
         };
+        // two-step histories (an unlocalized write, then a localized one) for the two main pairs
+        if c.name.contains("a+d/a") && [(Loc::FE10, Lang::German), (Loc::FE14, Lang::EnglishNA)].contains(&(c.loc, c.lang)) {
+            c.depth = 2;
+        }
         c
     }).collect()
 }
